@@ -11,7 +11,9 @@
     eval_and, eval_or, eval_opt, eval_empty, eval_always, calls_and, calls_or, calls_same_event,
     eval_layers, run_layers, flush_layers, evalTrace_strip, run_strip, flush_strip,
     call_site_overrides, no_call_site_uses_runtime_filter, runtime_emit_is_emitter_impl,
-    direct_bypass, direct_is_unfiltered_emit, flush_and, flush_defers, flush_spec
+    direct_bypass, direct_is_unfiltered_emit, flush_and, flush_defers, flush_spec,
+    macro_emit_iff, macro_emit_evt_iff, span_filter_sees_level, span_macro_completes_iff, span_done_is_span,
+    kind_leaf_spec
 -/
 import EmitModel.Lemmas.Pipeline
 
@@ -457,5 +459,115 @@ example :
       [(7, ⟨"m", "t", some (.point 5), [("own", .int 0), ("amb", .int 1)]⟩)] ∧
     (emit ρ (fun _ x => x) { rt with amb := [] } none ⟨"m", "t", none, [("own", .int 0)]⟩).filterMap Obs.dlv? = [] := by
   decide
+
+section macros
+open EmitModel.KindText (Kind)
+
+/-! ## The level macros and the span macros -/
+
+/-- `emit::debug!/info!/warn!/error!` (and `emit::emit!`): the event is the control parameters, the call-site
+    properties with the macro's level at its sorted position in front of the `props:` base; then as `emit_iff`,
+    with the call-site `when` (if any) as the effective filter. -/
+theorem macro_emit_iff (rt : Rt) (cs : Option Flt) (m : LevelMacro) (mdl tpl : String) (extent : Option Extent)
+    (base props : List (String × Val)) :
+    let built : Evt := ⟨mdl, tpl, extent <|> rt.clk.map Extent.point, macroProps m props ++ base ++ rt.amb⟩
+    (macroEmit ρ μ rt cs m mdl tpl extent base props).filterMap Obs.dlv? =
+      if (effective cs rt.filter).eval ρ built then rt.emitter.deliver ρ μ built else [] :=
+  hook_emit_iff ρ μ rt cs mdl tpl extent base (macroProps m props)
+
+/-- `emit::<o>!(rt, [when,] evt: emit::<m>_evt!(mdl, extent, props: base, "tpl", …) [, "tpl'", …])`: the inner
+    macro's level sits among the event's own properties, the outer macro's level and properties go in front. -/
+theorem macro_emit_evt_iff (rt : Rt) (cs : Option Flt) (m o : LevelMacro) (mdl tpl : String)
+    (extent : Option Extent) (base props : List (String × Val)) (tpl' : Option String)
+    (props' : List (String × Val)) :
+    let built : Evt := ⟨mdl, tpl'.getD tpl, extent <|> rt.clk.map Extent.point,
+      macroProps o props' ++ (macroProps m props ++ base) ++ rt.amb⟩
+    (macroEmitEvt ρ μ rt cs o (macroEvt m mdl tpl extent base props) tpl' props').filterMap Obs.dlv? =
+      if (effective cs rt.filter).eval ρ built then rt.emitter.deliver ρ μ built else [] :=
+  hook_emit_event_iff ρ μ rt cs (macroEvt m mdl tpl extent base props) tpl' (macroProps o props')
+
+/-- **The filter that enables a span sees the macro's level.** The verdict is the effective filter's (the
+    call-site `when` if given, else the runtime's) on the start event, whose properties END with `lvl` = the
+    level of the macro — and carry no `lvl` from the macro at all for plain `#[span]` / `new_span!`. -/
+theorem span_filter_sees_level (rt : Rt) (cs : Option Flt) (m : LevelMacro) (mdl name : String)
+    (ctxtProps ids : List (String × Val)) :
+    (spanEnabled ρ rt cs m mdl name ctxtProps ids).1 =
+      (effective cs rt.filter).eval ρ (spanStartEvt m mdl name ctxtProps ids rt.amb) ∧
+    (spanStartEvt m mdl name ctxtProps ids rt.amb).props =
+      [("evt_kind", .kind .span), ("span_name", .str name)] ++ ctxtProps ++ ids ++ rt.amb ++
+        (match m.level with | some l => [("lvl", .lvl l)] | none => []) ∧
+    (spanStartEvt m mdl name ctxtProps ids rt.amb).mdl = mdl ∧
+    (spanStartEvt m mdl name ctxtProps ids rt.amb).extent = none := by
+  refine ⟨?_, ?_, rfl, rfl⟩
+  · simp only [spanEnabled, firstDefined_eq]; rfl
+  · cases m <;> rfl
+
+/-- **A span completes iff that filter accepted it.** Everything the destinations receive from a
+    macro-instrumented span: the body's own emission, then — iff the effective filter accepted the start event —
+    exactly the deliveries of ONE completion event, which carries the macro's level first and the frame's
+    ambient properties last. A rejected span delivers nothing of its own and pushes nothing onto the context. -/
+theorem span_macro_completes_iff (rt : Rt) (cs : Option Flt) (m : LevelMacro) (mdl name : String)
+    (ctxtProps ids : List (String × Val)) (body : Evt) :
+    let enabled := (effective cs rt.filter).eval ρ (spanStartEvt m mdl name ctxtProps ids rt.amb)
+    let inner := if enabled then ctxtProps ++ ids ++ rt.amb else rt.amb
+    (spanMacro ρ μ rt cs m mdl name ctxtProps ids body).filterMap Obs.dlv? =
+      rt.emitter.deliver ρ μ { body with props := body.props ++ inner } ++
+        (if enabled then rt.emitter.deliver ρ μ (spanDoneEvt m mdl name rt.clk inner) else []) := by
+  have hf : ∀ l : List Obs, (∀ o ∈ l, ∃ i x, o = Obs.flt i x) → l.filterMap Obs.dlv? = [] := by
+    intro l hl
+    induction l with
+    | nil => rfl
+    | cons o l ih =>
+      obtain ⟨i, x, rfl⟩ := hl o (by simp)
+      simpa [Obs.dlv?] using ih (fun o ho => hl o (by simp [ho]))
+  have hcalls : (spanEnabled ρ rt cs m mdl name ctxtProps ids).2.filterMap Obs.dlv? = [] := by
+    apply hf
+    intro o ho
+    have : o ∈ (effective cs rt.filter).calls ρ (spanStartEvt m mdl name ctxtProps ids rt.amb) := by
+      simpa [spanEnabled, firstDefined_eq, Flt.calls] using ho
+    obtain ⟨i, hi⟩ := calls_same_event ρ _ _ o this
+    exact ⟨i, _, hi⟩
+  have he : (spanEnabled ρ rt cs m mdl name ctxtProps ids).1 =
+      (effective cs rt.filter).eval ρ (spanStartEvt m mdl name ctxtProps ids rt.amb) := by
+    simp only [spanEnabled, firstDefined_eq]; rfl
+  simp only [spanMacro, List.filterMap_append, hcalls, List.nil_append, he, spanInner, Emt.deliver]
+  cases (effective cs rt.filter).eval ρ (spanStartEvt m mdl name ctxtProps ids rt.amb) <;> simp
+
+/-- The completion event of an accepted span is a span for `is_span_filter()` and not a metric for
+    `is_metric_filter()`, whatever level the macro put in front of `evt_kind`. -/
+theorem span_done_is_span (m : LevelMacro) (mdl name : String) (clk : Option Nat) (inner : List (String × Val)) :
+    kindLeaf .span (spanDoneEvt m mdl name clk inner) = true ∧
+    kindLeaf .metric (spanDoneEvt m mdl name clk inner) = false := by
+  cases m <;> simp [kindLeaf, spanDoneEvt, lvlProp, LevelMacro.level, lookupFirst, Val.toKind]
+
+/-- `KindFilter` accepts exactly the events whose FIRST `evt_kind` property reads as the wanted kind (typed, or a
+    text that parses to it); an event without one is rejected. -/
+theorem kind_leaf_spec (k : Kind) (x : Evt) :
+    kindLeaf k x = true ↔ ∃ v, lookupFirst "evt_kind" x.props = some v ∧ v.toKind = some k := by
+  unfold kindLeaf
+  cases h : lookupFirst "evt_kind" x.props with
+  | none => simp
+  | some v => simp
+
+example : kindLeaf .metric ⟨"m", "t", none, [("a", .int 1), ("evt_kind", .str " METRIC "), ("evt_kind", .kind .span)]⟩ = true := by
+  decide
+example : kindLeaf .span ⟨"m", "t", none, [("a", .int 1)]⟩ = false := by decide
+
+/-- Non-vacuity of `span_macro_completes_iff`, both ways: a `warn` span under a leaf that demands at least
+    `error` (leaf 0 = `min_filter(Error)`) is rejected — the body sees only the outer ambient properties and
+    nothing completes; an `error` span is accepted, its body sees the pushed properties and it completes once. -/
+example :
+    let ρ : Nat → Evt → Bool := fun _ x => minLevelLeaf ⟨.error, none⟩ x
+    let rt : Rt := ⟨.leaf 0, .leaf 9, [("amb", .int 1)], some 5⟩
+    let body : Evt := ⟨"m", "body", none, []⟩
+    (spanMacro ρ (fun _ x => x) rt none .warn "m" "sp" [("n", .int 7)] [] body).filterMap Obs.dlv? =
+      [(9, ⟨"m", "body", none, [("amb", .int 1)]⟩)] ∧
+    (spanMacro ρ (fun _ x => x) rt none .error "m" "sp" [("n", .int 7)] [] body).filterMap Obs.dlv? =
+      [(9, ⟨"m", "body", none, [("n", .int 7), ("amb", .int 1)]⟩),
+       (9, ⟨"m", "sp", some (.range 5 5),
+          [("lvl", .lvl .error), ("evt_kind", .kind .span), ("span_name", .str "sp"), ("n", .int 7), ("amb", .int 1)]⟩)] := by
+  decide
+
+end macros
 
 end EmitModel.C01
